@@ -371,9 +371,19 @@ func cmdCheck(args []string) int {
 		return fmt.Sprintf("%p|%s", j.fr, j.o.Name[:strings.LastIndex(j.o.Name, "frame:")+len("frame:")])
 	}
 	everythingFailed := map[string]bool{}
+	// development aid: VERIF_ONLY=<regexp> solves only the obligations whose name matches; the others stay undecided
+	// (and are therefore reported as violations: a filtered run can never look green)
+	var onlyRe *regexp.Regexp
+	if v := os.Getenv("VERIF_ONLY"); v != "" {
+		onlyRe, _ = regexp.Compile(v)
+	}
 	for phase := 0; phase < 2; phase++ {
 		for idx, j := range all {
 			if (phase == 0) != isEverything(j.o) {
+				continue
+			}
+			if onlyRe != nil && !onlyRe.MatchString(j.o.Name) {
+				j.o.Result = "skipped"
 				continue
 			}
 			if phase == 1 && j.o.Kind == "frame" && !j.o.Cover && strings.Contains(j.o.Name, "frame:") && everythingFailed[frameScope(j)] {
